@@ -1,7 +1,66 @@
-From Coq Require Import List NArith ZArith Bool.
+(** C02 — property theorems.  [upload] is the model of
+    feeder.Write* ; feeder.Sum over the hash-trie writer (Model.v); [spec_hash]
+    is the format written independently (Spec.v).  The chunk hash [H] is an
+    arbitrary function with outputs of the reference length (no injectivity). *)
+From Coq Require Import List NArith ZArith Bool Lia.
 Import ListNotations.
-Require Import Aurora.Consts Aurora.C02.Model Aurora.C02.Spec Aurora.C02.Proofs.
+Require Import Aurora.Consts Aurora.C02.Model Aurora.C02.Spec Aurora.C02.Main.
 
-Theorem C02_le64_length : forall n, length (le64 n) = 8%nat.
-Proof. exact le64_length. Qed.
-Print Assumptions C02_le64_length.
+(** side conditions on the constants of the Go source, re-checked on every run:
+    the values the property text names (256 KiB, 8192, 8-byte span, 32-byte
+    reference), the literals the model hard-codes (span size 8, maxLevel 8), the
+    room in the writer's shared level buffer for eight full levels
+    (8 * (HashSize+SpanSize) * Branches <= ChunkWithSpanSize*9*2), and that the
+    level capacity Branches^7 exceeds any int64 length. *)
+Lemma consts_ok_C02 : consts_ok_C02_b = true.
+Proof. vm_compute. reflexivity. Qed.
+
+(** the reference is the format's tree hash of the bytes, for every split of the writes;
+    every Write returns the length it was given *)
+Theorem C02_equals_spec : forall (H : bytes -> bytes) (cs b refLen : nat),
+  (0 < cs)%nat -> (2 <= b)%nat -> (forall x, length (H x) = refLen) ->
+  forall segs : list bytes,
+  (Z.of_nat (length (concat segs)) + Z.of_nat cs + 8 < 2 ^ 63)%Z ->
+  (length (chunks_of cs (concat segs)) <= b ^ 7)%nat ->
+  exists u, upload H cs b refLen segs = Ok u
+            /\ spec_hash H cs b (concat segs) = Some (u_root u)
+            /\ u_rets u = map (fun s => Z.of_nat (length s)) segs.
+Proof. exact equals_spec. Qed.
+Print Assumptions C02_equals_spec.
+
+(** it does not depend on how the writes were split *)
+Theorem C02_segmentation_independent : forall (H : bytes -> bytes) (cs b refLen : nat),
+  (0 < cs)%nat -> (2 <= b)%nat -> (forall x, length (H x) = refLen) ->
+  forall segs1 segs2 : list bytes, concat segs1 = concat segs2 ->
+  (Z.of_nat (length (concat segs1)) + Z.of_nat cs + 8 < 2 ^ 63)%Z ->
+  (length (chunks_of cs (concat segs1)) <= b ^ 7)%nat ->
+  exists u1 u2, upload H cs b refLen segs1 = Ok u1 /\ upload H cs b refLen segs2 = Ok u2
+                /\ u_root u1 = u_root u2.
+Proof. exact segmentation_independent. Qed.
+Print Assumptions C02_segmentation_independent.
+
+(** at the constants of the Go source (256 KiB chunks, 8192 references of 32 bytes):
+    every content shorter than 2^63 - 256 KiB - 8 bytes, no capacity hypothesis left *)
+Theorem C02_at_source_constants : forall (H : bytes -> bytes),
+  (forall x, length (H x) = HashSize) ->
+  forall segs : list bytes,
+  (Z.of_nat (length (concat segs)) < 2 ^ 63 - 262152)%Z ->
+  exists u, upload H ChunkSize Branches HashSize segs = Ok u
+            /\ spec_hash H ChunkSize Branches (concat segs) = Some (u_root u)
+            /\ u_rets u = map (fun s => Z.of_nat (length s)) segs.
+Proof. exact (at_source_constants consts_ok_C02). Qed.
+Print Assumptions C02_at_source_constants.
+
+(** non-vacuity: a concrete 2-byte "hash", chunk size 2, branching 2, a content of
+    9 bytes (five chunks, four levels with a carried-over last chunk) written in
+    three pieces *)
+Definition ex_H (x : bytes) : bytes := [N.of_nat (length x) mod 256; fold_left N.lxor x 7]%N.
+Example C02_hyps_satisfiable :
+  let segs := [[1;2;3]; []; [4;5;6;7;8;9]]%N in
+  (forall x, length (ex_H x) = 2%nat) /\
+  (Z.of_nat (length (concat segs)) + Z.of_nat 2 + 8 < 2 ^ 63)%Z /\
+  (length (chunks_of 2 (concat segs)) <= 2 ^ 7)%nat /\
+  option_map u_root (match upload ex_H 2 2 2 segs with Ok u => Some u | Err _ => None end)
+    = spec_hash ex_H 2 2 (concat segs) /\
+  (exists r, spec_hash ex_H 2 2 (concat segs) = Some r).
+Proof. vm_compute. repeat split; try reflexivity; try lia. eexists; reflexivity. Qed.
